@@ -281,7 +281,7 @@ def filter_xml(kind, fs, fe, extra="none"):
 def model_req(o, fs, fe):
     r = {"m": "filter", "kind": o["kind"], "fs": TMIN if fs is None else fs, "fe": TMAX if fe is None else fe,
          "occ": occ_for(o, TMAX if fe is None else fe), "datetime": o["datetime"], "overrides": [],
-         "unbounded": bool(o["unbounded"]), "tmax": TMAX}
+         "unbounded": bool(o["unbounded"]), "tmax": TMAX, "tmin": TMIN}
     if o["kind"] == "VEVENT":
         r.update(end=o["end"], dur=o["dur"])
     if o["kind"] == "VTODO":
@@ -618,6 +618,33 @@ def f37_witness(ctx):
                               {"object": F37_TEXT, "range": [fs, fe]}, exp, res, finding="F37")
 
 
+F38_TEXT = ("BEGIN:VCALENDAR\r\nVERSION:2.0\r\nPRODID:-//verif//EN\r\nBEGIN:VJOURNAL\r\nUID:f38\r\nDTSTAMP:20240101T000000Z\r\n"
+            "SUMMARY:x\r\nEND:VJOURNAL\r\nEND:VCALENDAR\r\n")
+
+
+def f38_witness(ctx):
+    """F38 (fixed): a VJOURNAL without DTSTART matches no time range (RFC 4791 9.9); requests open at one end returned it, the same
+    request with an always-true condition did not.  A to-do without dates matches every range, both ways."""
+    todo = F38_TEXT.replace("VJOURNAL", "VTODO").replace("f38", "f38t")
+    with App({"auth": {"type": "none"}}) as app:
+        app.request("MKCALENDAR", "/u/cal/", login="u:p")
+        if app.request("PUT", "/u/cal/f38.ics", F38_TEXT, login="u:p")[0] != 201 or app.request("PUT", "/u/cal/f38t.ics", todo, login="u:p")[0] != 201:
+            return
+        t0 = int(dtm.datetime(2024, 1, 1, tzinfo=dtm.timezone.utc).timestamp())
+        for kind, exp in (("VJOURNAL", []), ("VTODO", ["/u/cal/f38t.ics"])):
+            for fs, fe in ((t0, None), (None, t0), (t0, t0 + 366 * DAY)):
+                res = {}
+                for extra in ("none", "after"):
+                    body = ('<?xml version="1.0"?><C:calendar-query %s><D:prop><D:getetag/></D:prop>%s</C:calendar-query>' % (NS, filter_xml(kind, fs, fe, extra)))
+                    st, _, text = app.request("REPORT", "/u/cal/", body, login="u:p")
+                    res[extra] = sorted(parse_multistatus(text)[0]) if st == 207 else st
+                ctx.case("witness:F38:%s" % kind, sample={"range": [fs, fe], "results": res, "expected": exp}, key=["F38", kind, fs, fe], nontrivial=True)
+                if res["none"] != exp or res["after"] != exp:
+                    ctx.violation("an undated %s and the range %s: the plain query returns %s, with an always-true condition %s, RFC 4791 9.9 gives %s"
+                                  % (kind, [fs, fe], res["none"], res["after"], exp), {"object": F38_TEXT if kind == "VJOURNAL" else todo, "range": [fs, fe]},
+                                  exp, res, finding="F38")
+
+
 def filter_structure_level(ctx):
     """random filter trees (several filter elements, sibling comp-filters, prop-filters that hold or not, is-not-defined, unknown
     elements, up to three levels, 0-2 time-ranges anywhere) against the model of `simplify_prefilters` and `comp_match`
@@ -725,6 +752,7 @@ def run(ctx):
     known_witnesses(ctx)
     f27_witness(ctx)
     f37_witness(ctx)
+    f38_witness(ctx)
     filter_structure_level(ctx)
     ctx.extra["rule"] = ("VEVENT/VTODO/VJOURNAL from the grammar (DATE or UTC start; DTEND/DURATION/neither; DAILY|WEEKLY x INTERVAL x "
                          "COUNT|UNTIL|unbounded; EXDATE; the eight VTODO combinations) x ranges whose ends sit at, 1 s before and 1 s after "
